@@ -192,6 +192,24 @@ struct BigFamily {
         return true;
     }
 };
+
+// The writing path with a REAL buffer of INT_MAX characters (address space from mmap; it ends at an inaccessible page) and a list whose
+// text does not fit: two items fit, the third has to be refused - a write position or a space check kept in a wrapped int writes on instead.
+// Costs 2 GiB of touched memory and about three seconds; one worker.
+static void giant_write(Ctx &ctx, Local &lc) {
+    static const struct { long len; int nb; } GW[] = { { (long)INT_MAX / 6 - 1, 0 }, { (long)INT_MAX / 12 - 1, 1 } };
+    BigRun rl('\n', (size_t)INT_MAX / 6 + 16);
+    for (auto &g : GW) {
+        size_t cap = (size_t)INT_MAX, total = ((cap + 4095) / 4096 + 1) * 4096; char *raw = (char *)mmap(0, total, PROT_READ | PROT_WRITE, MAP_PRIVATE | MAP_ANONYMOUS | MAP_NORESERVE, -1, 0); if (raw == (char *)MAP_FAILED) { ctx.harness_error("no address space for the giant write"); return; }
+        mprotect(raw + total - 4096, 4096, PROT_NONE); char *dst = raw + total - 4096 - cap;
+        UriQueryListA n[3]; for (int i = 0; i < 3; i++) { n[i].key = rl.str((size_t)g.len); n[i].value = 0; n[i].next = i < 2 ? &n[i + 1] : 0; }
+        int written = -7, sig; Str enc = fmt("G`%ld`%d`0`A", g.len, g.nb); lc.big++; ctx.progress++;
+        if ((sig = GUARD_ENTER()) != 0) ctx.violation("", enc, fmt("%s: uriComposeQueryExA wrote beyond a buffer of INT_MAX characters (three keys of %ld line feeds)", signame(sig), g.len));
+        else { int rc = uriComposeQueryExA(dst, &n[0], INT_MAX, &written, URI_TRUE, g.nb); GUARD_LEAVE();
+            if (rc != URI_ERROR_OUTPUT_TOO_LARGE) ctx.violation("", enc, fmt("three keys of %ld line feeds need more than INT_MAX characters, but composing into INT_MAX characters returns %d (charsWritten=%d)", g.len, rc, written)); }
+        munmap(raw, total);
+    }
+}
 void big_sizes(Ctx &ctx, Local &lc) {
     BigFamily fam(ctx.quick(), ctx.secondary ? 3 : 0); uint64_t idx = 0;
     for (int items = 1; items <= 2; items++) {
@@ -262,6 +280,7 @@ void run(Ctx &ctx) {
     all_strings(ctx, "&=a+%41", (ctx.secondary ? 4 : ctx.quick() ? 6 : 8) + ctx.bonus, [&](const Str &s) { if (ctx.expired()) return; ra.splitter_case(s); rw.splitter_case(s); });
     if (ctx.worker == 0) for (unsigned long x : { 0x100ul, 0x141ul, 0x20ACul, 0x10041ul }) for (int shape = 0; shape < 3; shape++) for (int plus = 0; plus < 2; plus++) for (int nb = 0; nb < 2; nb++) wide_case(ctx, lc, x, shape, plus, nb);
     big_sizes(ctx, lc);
+    if (!ctx.secondary && ctx.worker == 2 % ctx.nworkers) giant_write(ctx, lc);
     if (sw.tripped()) ctx.violation("", "S`a`0`0`A", "AddressSanitizer reported an invalid access");
     ctx.st.count("evaluations", lc.compose_calls + lc.dissects + lc.splitter + lc.big); ctx.st.count("lists", lc.lists); ctx.st.count("compose_calls", lc.compose_calls); ctx.st.count("compose_refused_too_small", lc.too_small);
     ctx.st.count("dissect_roundtrips", lc.dissects); ctx.st.count("splitter_strings", lc.splitter); ctx.st.count("int_max_edge_lists", lc.big); ctx.st.count("int_max_edge_refused", lc.big_refused); ctx.st.count("dropped_empty_items", lc.dropped_items);
@@ -269,6 +288,7 @@ void run(Ctx &ctx) {
 }
 void replay(Ctx &ctx, const Str &enc) {
     std::vector<Str> p = split(enc, '`'); Local lc; if (p.size() < 5) return;
+    if (p[0] == "G") { giant_write(ctx, lc); return; }
     if (p[0] == "B" && p.size() == 6) { BigFamily fam(p[5][0] == 'q', atoi(p[5].c_str() + 1)); fam.one(ctx, lc, atoi(p[1].c_str()), atoi(p[2].c_str()), atoi(p[3].c_str()), atoi(p[4].c_str())); return; }
     int a = atoi(p[2].c_str()), b = atoi(p[3].c_str());
     if (p[0] == "H") { unsigned long x = 0; int shape = 0; if (sscanf(p[1].c_str(), "%lx.%d", &x, &shape) == 2) wide_case(ctx, lc, x, shape, a, b); return; }
